@@ -54,6 +54,9 @@ def configs() -> Dict[str, dict]:
     add("rs-duplicate-keys", base, {"blocks": [{"mode": "by_position", "context": {"value": [1.0]}}, {"mode": "by_position", "context": {"value": [2.0]}}]}, invalid="config", needs=())
     add("rs-missing-source", base, {"blocks": [{"mode": "by_position", "source": {"format": "csv", "path": "nope.csv"}}]}, invalid="runspace", needs=())
     add("rs-cap-exceeded", base, {"max_runs": 2, "blocks": [{"mode": "by_position", "context": {"value": [1.0, 2.0, 3.0], "a": [0.0, 0.0, 0.0]}}]}, invalid="runspace", needs=())
+    # cap vs a combinatorial source inside a by_position block: 2 rows -> 4 runs
+    add("rs-source-combinatorial", nodes("src_ctx", "failif") + [{"processor": 'template:"out_{value}_{a}.txt":path'}, {"processor": "VTxtSink"}],
+        {"blocks": [{"mode": "by_position", "source": {"format": "csv", "path": "va.csv", "mode": "combinatorial"}}]}, needs=())
     add("rs-missing-key", nodes("src_ctx", "mul", "failif") + VALID_TAIL, {"blocks": [{"mode": "by_position", "context": {"value": [1.0, 2.0]}}]}, needs=("factor",))
     return c
 
@@ -88,6 +91,8 @@ def invoke(cfg_name: str, spec: Optional[dict], raw: Optional[str], flags: List[
         if spec["rs"] is not None:
             cfg["run_space"] = copy.deepcopy(spec["rs"])
         cli.write_yaml(yp, cfg)
+        with open(os.path.join(scratch, "va.csv"), "w") as f:
+            f.write("value,a\n1.0,0.0\n2.0,0.5\n")
     else:
         yp = os.path.join(scratch, "does-not-exist.yaml")
     argv = ["run", yp, "-q", *flags]
@@ -109,7 +114,7 @@ def planned_runs(spec: dict, ctx: Dict[str, Any], cap: Optional[int]) -> Tuple[s
     rs2 = dict(rs)
     if cap is not None:
         rs2["max_runs"] = cap
-    p = rsref.plan(rs2, {"nope.csv": None})
+    p = rsref.plan(rs2, {"nope.csv": None, "va.csv": {"value": [1.0, 2.0], "a": [0.0, 0.5]}})
     if p[0] == "ok":
         return "ok", [{**ctx, **r} for r in p[2]()]
     return p[0], []
@@ -206,7 +211,7 @@ def judge(cfg_name: str, spec: Optional[dict], raw: Optional[str], flags: List[s
     if first_fail is not None and res.code != EXIT_RUNTIME:
         bad("wrong-exit-code|runtime", "a failing run must exit 4")
     done = len(runs) if first_fail is None else first_fail
-    want_sinks = sorted(f"out_{r['value']}.txt" for r in runs[:done])
+    want_sinks = sorted((f"out_{r['value']}_{r['a']}.txt" if cfg_name == "rs-source-combinatorial" else f"out_{r['value']}.txt") for r in runs[:done])
     if art["sinks"] != want_sinks:
         bad("wrong-artefacts-after-failure" if first_fail is not None else "wrong-artefacts", f"sink files {art['sinks']} expected {want_sinks}")
     started = len(runs) if first_fail is None else first_fail + 1
@@ -232,7 +237,7 @@ def invocations(tier: str):
         sets_list: List[List[str]] = [[], ["pipeline.nodes.0.nope=1"], ["pipeline.nope.key=1"]]
         if name in ("valid", "valid-two", "use-before-create"):
             sets_list.append(["pipeline.nodes.0.processor=VSrc"])              # valid path, same value
-        caps = [None] if spec["rs"] is None else [None, 1, 1000]
+        caps = [None] if spec["rs"] is None else [None, 1, 3, 1000]
         for flags, ctx, sets, cap in itertools.product(flagsets, ctxs, sets_list, caps):
             if tier == "quick" and sets and flags and len(flags) > 1:
                 continue
